@@ -38,6 +38,7 @@ structure DRing (K : Type) [CommRing K] [Algebra ℚ K] where
   inv : K → K
   rpow : K → K → K
   D_rpow : ∀ c b e, D c (rpow b e) = (fn "log" b * D c e + e * D c b * inv b) * rpow b e
+  rpow_pred : ∀ b e, b * inv b = 1 → rpow b (e + -1) = rpow b e * inv b
 
 namespace DRing
 variable {K : Type} [CommRing K] [Algebra ℚ K] (S : DRing K)
